@@ -157,6 +157,34 @@ let dispatch cmd =
         | OMtu (m, l) -> "{\"mtu\":[" ^ ji m ^ "," ^ jopt ji l ^ "]}"
         | OHttp (l, d) -> "{\"http\":[" ^ jopt ji l ^ "," ^ jb d ^ "]}" in
       jl jout (snd (run_ops empty_db ops))
+  | "oracle" -> let md = nz () in let st = ntext () in let syn_mss = nz () in let v = nz () in let b = ntext () in
+      (match parse_tcp_sig st with
+       | Err e -> "{\"sigerr\":" ^ jerr e ^ "}"
+       | Ok s ->
+         (match parse_packet v b with
+          | Unframed -> "\"unframed\""
+          | Framed (Err e) -> jerr e
+          | Framed (Ok k) -> let p = sig_of k syn_mss in
+              "{\"match\":" ^ jopt jmtype (tcp_match md s p) ^ ",\"dist\":" ^ ji (Z.sub s.s_ttl p.p_ttl) ^ ",\"type\":" ^ ji k.k_tcp.t_type
+              ^ ",\"frag\":" ^ jb k.k_ip.i_frag ^ ",\"psig\":" ^ jpsig p ^ ",\"sig\":" ^ jsig s
+              ^ ",\"tcp\":{\"sport\":" ^ ji k.k_tcp.t_sport ^ ",\"dport\":" ^ ji k.k_tcp.t_dport ^ ",\"seq\":" ^ ji k.k_tcp.t_seq ^ ",\"ack\":" ^ ji k.k_tcp.t_ack
+              ^ ",\"flags\":" ^ ji k.k_tcp.t_flags ^ ",\"urg\":" ^ ji k.k_tcp.t_urg ^ ",\"payload\":" ^ jtext k.k_tcp.t_payload ^ "}"
+              ^ ",\"ip\":{\"src\":" ^ jtext k.k_ip.i_src ^ ",\"dst\":" ^ jtext k.k_ip.i_dst ^ ",\"id\":" ^ ji k.k_ip.i_id ^ ",\"tos\":" ^ ji k.k_ip.i_tos ^ "}}"))
+  | "imp_tcp" -> let st = ntext () in
+      let b_ver = nz () in let b_src = ntext () in let b_dst = ntext () in let b_id = nz () in let b_ipflags = nz () in let b_frag = nz () in
+      let b_proto = nz () in let b_sport = nz () in let b_dport = nz () in let b_seq = nz () in let b_ack = nz () in let b_flags = nz () in
+      let b_urg = nz () in let b_win = nz () in
+      let opt () = let v = ni () in if v < 0 then None else Some (z_of_int v) in
+      let b_mss = opt () in let b_ws = opt () in let b_ts1 = opt () in let b_ts2 = opt () in let b_payload = ntext () in
+      let hops = nz () in let mtu = nz () in let uptime = opt () in let tape = nlist nz in
+      (match parse_tcp_sig st with
+       | Err e -> "{\"sigerr\":" ^ jerr e ^ "}"
+       | Ok s ->
+         let b = { b_ver; b_src; b_dst; b_id; b_ipflags; b_frag; b_proto; b_sport; b_dport; b_seq; b_ack; b_flags; b_urg; b_win; b_mss; b_ws; b_ts1; b_ts2; b_payload } in
+         (match imp_tcp s b hops mtu uptime tape with
+          | Err e -> jerr e
+          | Ok (x, rest) ->
+            "{\"ok\":{\"unused_tape\":" ^ string_of_int (List.length rest) ^ ",\"bytes\":" ^ jres jtext (enc_out x) ^ "}}"))
   | _ -> failwith ("unknown command " ^ cmd)
 
 let () =
